@@ -101,6 +101,8 @@ type Env struct {
 	StoreID string
 	ModelID string
 	name    string
+
+	caseCache storage.InMemoryCache[any]
 }
 
 func NewEnv(ds storage.OpenFGADatastore, opts ...server.OpenFGAServiceV1Option) *Env {
@@ -116,6 +118,19 @@ func NewEnv(ds storage.OpenFGADatastore, opts ...server.OpenFGAServiceV1Option) 
 
 func (e *Env) Close() { e.S.Close() }
 
+// CaseCache is the query cache shared by the command-level engines ("v1c:", "v2c:")
+// for the requests of the current case; Setup starts a fresh one.
+func (e *Env) CaseCache() storage.InMemoryCache[any] {
+	if e.caseCache == nil {
+		c, err := storage.NewInMemoryLRUCache[any]()
+		if err != nil {
+			panic(err)
+		}
+		e.caseCache = c
+	}
+	return e.caseCache
+}
+
 var storeSeq int
 
 // Setup creates a store, writes the model through the API and the tuples straight
@@ -123,6 +138,10 @@ var storeSeq int
 // as if left over from another model).
 func (e *Env) Setup(ctx context.Context, m *Model, tuples []Tuple) error {
 	storeSeq++
+	if e.caseCache != nil {
+		e.caseCache.Stop()
+		e.caseCache = nil
+	}
 	st, err := e.S.CreateStore(ctx, &openfgav1.CreateStoreRequest{Name: fmt.Sprintf("verif-%d", storeSeq)})
 	if err != nil {
 		return err
